@@ -299,6 +299,8 @@ pub fn catalogue(rng: &mut Rng) -> Vec<Scenario> {
             SemFilter { tags: vec![("t".into(), vec!["b".into(), "a".into()])], ..SemFilter::empty() },
             SemFilter { authors: vec![author(0), author(1)], ..SemFilter::empty() },
             SemFilter { kinds: vec![1, 7], ..SemFilter::empty() },
+            SemFilter { ids: vec![ev[x].sem.id, ev[0].sem.id, ev[y].sem.id], ..SemFilter::empty() },
+            SemFilter { ids: vec![ev[y].sem.id, ev[1].sem.id, ev[x].sem.id], ..SemFilter::empty() },
         ];
         for fi in 0..filters.len() {
             for (first, second) in [(x, y), (y, x)] {
